@@ -63,8 +63,13 @@ func newAmmWorld(rng *Rng, out *Out, nUsers int, blockedIdx int) *ammWorld {
 	// registry: rowan + tokens with the CLP permission
 	entries := []*tokenregistrytypes.RegistryEntry{{Denom: "rowan", Decimals: 18, Permissions: []tokenregistrytypes.Permission{tokenregistrytypes.Permission_CLP}}}
 	w.cfg("register rowan")
-	for _, t := range ammTokens {
-		entries = append(entries, &tokenregistrytypes.RegistryEntry{Denom: t, Decimals: 18, Permissions: []tokenregistrytypes.Permission{tokenregistrytypes.Permission_CLP}})
+	// registry decimals vary per token (18, 18, 6, 0, 8): no AMM message may depend on them
+	for i, t := range ammTokens {
+		dec := []int64{18, 18, 6, 0, 8}[i%5]
+		if i == 0 && rng.Chance(1, 2) {
+			dec = 6 // cusdc as on mainnet in half of the worlds
+		}
+		entries = append(entries, &tokenregistrytypes.RegistryEntry{Denom: t, Decimals: dec, Permissions: []tokenregistrytypes.Permission{tokenregistrytypes.Permission_CLP}})
 		w.cfg("register " + t)
 	}
 	w.app.TokenRegistryKeeper.SetRegistry(w.ctx, tokenregistrytypes.Registry{Entries: entries})
@@ -1125,6 +1130,18 @@ func init() {
 			w.opAdd(w.users[3], "cusdc", e18(1), e18(1)) // refreshed: inside the lock period at the epoch end
 			w.setHeight(15)
 			w.opEpoch()
+		}
+		// D22: a provider record holding zero units (an add too small to mint a unit) in a pool that is then
+		// decommissioned: either the decommission is refused as a whole or every record goes with the pool
+		{
+			w := newAmmWorld(rng, out, 3, -1)
+			w.fundAll()
+			hundred := new(big.Int).Mul(e18(1), big.NewInt(100))
+			w.opCreate(w.users[0], "ceth", e18(1), hundred)
+			w.opAdd(w.users[1], "ceth", big.NewInt(0), big.NewInt(1))
+			w.opRm(w.users[0], "ceth", 6000)
+			w.opDecom("ceth")
+			w.opCreate(w.users[0], "ceth", e18(1), hundred)
 		}
 		// D21: a reward period that takes over late — P1 = blocks 2..5, then at block 7 a period P2 = blocks 6..9 is
 		// configured (its start block has passed, so the per-period counters of the pools still hold P1's totals):
